@@ -4,9 +4,9 @@ Require Import Verif.Base.Atomics Verif.Gen.Gen_epoch Verif.Conc.Machine Verif.E
 Import ListNotations.
 Local Open Scope Z_scope.
 
-(* R: as long as no Accessor was released while locked, lock_times is exactly the client's depth *)
+(* R: lock_times of a slot is exactly the client's depth of the accessor bound to it; a slot bound to no accessor
+   (never allocated, on the free list, or just allocated and not yet bound) has lock_times = 0 *)
 Definition InvR (s : st) : Prop :=
-  rwl s = false ->
   (forall h i, hidx (get_h s h) = Some i -> lt (get_slot s i) = hdepth (get_h s h)) /\
   (forall i, (forall h, hidx (get_h s h) <> Some i) -> lt (get_slot s i) = 0).
 
@@ -17,41 +17,37 @@ Proof.
   specialize (H h). rewrite getn_setn_other in H by assumption. exact H.
 Qed.
 
-Lemma step_rwl : forall s t s', step s t = Some s' -> rwl s' = false -> rwl s = false.
-Proof. intros s t s' H. step_cases H; simp; auto. intro E. apply orb_false_iff in E. tauto. Qed.
-
-Lemma stepR1 : forall s t s', InvA s -> InvB s -> InvR s -> step s t = Some s' -> rwl s' = false ->
+Lemma stepR1 : forall s t s', InvA s -> InvB s -> InvR s -> step s t = Some s' ->
   forall h i, hidx (get_h s' h) = Some i -> lt (get_slot s' i) = hdepth (get_h s' h).
 Proof.
-  intros s t s' IA IB IR H Hr'. pose proof (step_rwl _ _ _ H Hr') as Hr0. destruct (IR Hr0) as [R1 R2].
-  pose proof (a_inj _ IA) as Hinj. clear Hr'.
+  intros s t s' IA IB [R1 R2] H. pose proof (a_inj _ IA) as Hinj.
   step_cases H; bfacts IA IB Hth Hpc; specs; prepb; intros hq ix Hx; simp; gs; try (apply R1; assumption); try congruence.
   all: try (injection Hx as <-).
+  all: try reflexivity.
   all: try (rewrite (R1 _ _ Hx); lia).
   all: try (exfalso; match goal with Hn : ?a <> ?b |- _ => apply Hn; eapply Hinj; eauto; fail end).
   all: try (apply R2; assumption).
 Qed.
 
-Lemma stepR2 : forall s t s', InvA s -> InvB s -> InvR s -> step s t = Some s' -> rwl s' = false ->
+Lemma stepR2 : forall s t s', InvA s -> InvB s -> InvR s -> step s t = Some s' ->
   forall i, (forall h, hidx (get_h s' h) <> Some i) -> lt (get_slot s' i) = 0.
 Proof.
-  intros s t s' IA IB IR H Hr'. pose proof (step_rwl _ _ _ H Hr') as Hr0. destruct (IR Hr0) as [R1 R2].
+  intros s t s' IA IB [R1 R2] H.
   step_cases H; bfacts IA IB Hth Hpc; specs; prepb; intros ix Hq; simp; gs; try (apply R2; assumption).
-  (* the stepping thread's handle is bound to the modified slot: the premise is false *)
+  (* the stepping thread's handle stays bound to the modified slot: the premise is false *)
   all: try (exfalso; match goal with Hi : hidx (getn handle0 (handles _) ?h0) = Some ?n |- _ =>
               specialize (Hq h0); rewrite getn_setn_same in Hq; simp; congruence end).
   all: try (exfalso; match goal with Hi : hidx (getn handle0 (handles _) ?h0) = Some ?n |- _ =>
               specialize (Hq h0); congruence end).
+  (* deallocate: the slot that becomes unbound has lock_times = 0 *)
+  all: try (match goal with Hi : hidx (getn handle0 (handles _) ?h0) = Some ?n |- lt (getn slot0 _ ?k) = 0 =>
+              destruct (Nat.eq_dec n k) as [<-|Hnk]; [exact Rf0 | apply R2; eapply unbound_transfer; [exact Hq | rewrite Hi; congruence]] end; fail).
   (* otherwise the slot was unbound before as well *)
   all: try (apply R2; eapply unbound_transfer; [exact Hq | congruence]).
   all: try (apply R2; eapply unbound_transfer; [exact Hq | rewrite Hcr_none; discriminate]; fail).
-  1: { apply orb_false_iff in Hr'. destruct Hr' as [_ Hd]. apply Z.leb_gt in Hd.
-  destruct (Nat.eq_dec n ix) as [<-|Hne].
-  - rewrite (R1 _ _ Heqo). lia.
-  - apply R2. eapply unbound_transfer; [exact Hq | rewrite Heqo; congruence]. }
   all: apply R2; eapply unbound_transfer; [exact Hq | match goal with |- hidx (getn handle0 _ ?h0) <> _ =>
          let Hq0 := fresh in pose proof (Hq h0) as Hq0; rewrite getn_setn_same in Hq0; exact Hq0 end].
 Qed.
 
 Lemma InvR_step : forall s t s', InvA s -> InvB s -> InvR s -> step s t = Some s' -> InvR s'.
-Proof. intros s t s' IA IB IR H Hr. split; [eapply stepR1; eauto | eapply stepR2; eauto]. Qed.
+Proof. intros s t s' IA IB IR H. split; [eapply stepR1; eauto | eapply stepR2; eauto]. Qed.
